@@ -296,6 +296,7 @@ class C04(Check):
 
 class C05(Check):
     id = 'C05'
+    expected_probes = ('rest-points-sim', 'rest-points-fork', 'rest-points-spawn', 'rest-points-serial')
 
     def gen(self, ch, tier):
         sc = gen_scenario(ch, backends=[('serial', 1), ('sim', 4), ('fork', 5), ('spawn', 3)], cache='sometimes',
@@ -311,6 +312,7 @@ class C05(Check):
     def record(self, sc, out, vs, ch, extra=None):
         r = super().record(sc, out, vs, ch, extra)
         r['probes']['rest-points'] = getattr(out, 'rest_points', 0)
+        r['probes']['rest-points-' + sc['backend']] = getattr(out, 'rest_points', 0)
         return r
 
 
